@@ -1,2 +1,891 @@
-// Package c15 binds the TLA+ specification of property C15 to the Go code.
+// Package c15 binds spec/io (LimitReader.tla, TruncWriter.tla, IOTrace.tla)
+// to ioutil.LimitReader and ioutil.TruncatedWriter.
+//
+// The wrapped reader/writer is a scripted fake that answers every call with
+// the (count, error) the TLA+ path dictates and records every request made to
+// it (length of the slice passed down, the bytes themselves for the writer).
+// Bytes are mapped back to stream positions by the harness (the abstraction
+// function of the specification); everything else is compared as is.
 package c15
+
+import (
+	"bufio"
+	"bytes"
+	"encoding/json"
+	"errors"
+	"fmt"
+	"io"
+	"os"
+	"runtime"
+	"runtime/debug"
+	"strconv"
+	"strings"
+	"sync"
+	"sync/atomic"
+
+	"github.com/AdguardTeam/golibs/ioutil"
+
+	"verifharness/internal/vh"
+)
+
+func init() {
+	vh.Register("c15", "replay-reader", replayReader)
+	vh.Register("c15", "replay-writer", replayWriter)
+	vh.Register("c15", "record-io", recordIO)
+}
+
+// injected errors, compared by identity.
+var injected = map[string]error{
+	"E1": errors.New("injected error E1"),
+	"E2": errors.New("injected error E2"),
+	"E3": fmt.Errorf("injected error E3: %w", io.ErrUnexpectedEOF),
+}
+
+// errOf turns a specification token into the error value the fake returns.
+func errOf(tok string) (error, error) {
+	switch tok {
+	case "nil":
+		return nil, nil
+	case "EOF":
+		return io.EOF, nil
+	}
+	if e, ok := injected[tok]; ok {
+		return e, nil
+	}
+	return nil, fmt.Errorf("harness: unknown error token %q", tok)
+}
+
+// classify maps an error returned by the code under test to the
+// specification's token: identity for nil / io.EOF / injected errors,
+// errors.As for *LimitError (with its Limit), "other:…" for anything else.
+func classify(err error) (tok string, limit uint64) {
+	if err == nil {
+		return "nil", 0
+	}
+	if err == io.EOF {
+		return "EOF", 0
+	}
+	for k, e := range injected {
+		if err == e {
+			return k, 0
+		}
+	}
+	var le *ioutil.LimitError
+	if errors.As(err, &le) && le != nil {
+		return "Limit", le.Limit
+	}
+	return "other:" + err.Error(), 0
+}
+
+// streamByte is the content of a stream at position i: distinct values for
+// the first 250 positions (exact position recovery in the enumerated cases),
+// a seeded mix afterwards.
+func streamByte(salt uint64, i int) byte {
+	if i < 250 {
+		return byte(i + 1)
+	}
+	x := uint64(i)*0x9E3779B97F4A7C15 + salt
+	x ^= x >> 29
+	x *= 0xBF58476D1CE4E5B9
+	x ^= x >> 32
+	return byte(x)
+}
+
+func fillStream(salt uint64, dst []byte, from int) {
+	for i := range dst {
+		dst[i] = streamByte(salt, from+i)
+	}
+}
+
+// locate returns the stream offset at which chunk sits: want if it matches
+// there, otherwise the first other offset < limit where it matches, else -1.
+func locate(salt uint64, chunk []byte, want, limit int) int {
+	match := func(off int) bool {
+		for i, c := range chunk {
+			if streamByte(salt, off+i) != c {
+				return false
+			}
+		}
+		return true
+	}
+	if match(want) {
+		return want
+	}
+	if limit > 4096 {
+		limit = 4096
+	}
+	for off := 0; off < limit; off++ {
+		if match(off) {
+			return off
+		}
+	}
+	return -1
+}
+
+// ---------------------------------------------------------------- reader
+
+// forEachParallel feeds the vectors of a file to GOMAXPROCS workers; work
+// gets the 1-based line number and a private copy of the line.  Distinct
+// non-trivial vectors are counted on the reading goroutine.
+func forEachParallel(path string, dd *vh.Dedup, trivialLen int, work func(n int, raw []byte) error) (n int, err error) {
+	type item struct {
+		n   int
+		raw []byte
+	}
+	debug.SetGCPercent(400)
+	ch := make(chan []item, 64)
+	var wg sync.WaitGroup
+	var mu sync.Mutex
+	var werr error
+	for k := 0; k < runtime.GOMAXPROCS(0); k++ {
+		wg.Add(1)
+		go func() {
+			defer wg.Done()
+			for batch := range ch {
+				for _, it := range batch {
+					raw := it.raw
+					if raw[0] == '"' {
+						var str string
+						if e := json.Unmarshal(raw, &str); e != nil {
+							mu.Lock()
+							werr = fmt.Errorf("%s:%d: %w", path, it.n, e)
+							mu.Unlock()
+							continue
+						}
+						raw = []byte(str)
+					}
+					if e := work(it.n, raw); e != nil {
+						mu.Lock()
+						if werr == nil {
+							werr = e
+						}
+						mu.Unlock()
+					}
+				}
+			}
+		}()
+	}
+	batch := make([]item, 0, 512)
+	fh, err := os.Open(path)
+	if err != nil {
+		close(ch)
+		return 0, err
+	}
+	defer fh.Close()
+	sc := bufio.NewScanner(fh)
+	sc.Buffer(make([]byte, 1<<20), 1<<28)
+	for sc.Scan() {
+		raw := sc.Bytes()
+		if len(raw) == 0 {
+			continue
+		}
+		n++
+		// CSVWrite quotes the line (escaping the inner quotes): that adds 2
+		// bytes plus one per inner quote; trivialLen is scaled accordingly
+		// by the callers, the workers undo the quoting.
+		if len(raw) > trivialLen {
+			dd.Add(raw)
+		}
+		batch = append(batch, item{n: n, raw: bytes.Clone(raw)})
+		if len(batch) == cap(batch) {
+			ch <- batch
+			batch = make([]item, 0, 512)
+		}
+	}
+	err = sc.Err()
+	ch <- batch
+	close(ch)
+	wg.Wait()
+	if err == nil {
+		err = werr
+	}
+	return n, err
+}
+
+type readAns struct {
+	k   int
+	err string
+}
+
+type readReq struct {
+	Len int    `json:"len"` // len(p) passed down
+	K   int    `json:"k"`   // bytes the fake returned
+	Err string `json:"err"`
+}
+
+// scriptedReader is the adversarial reader of LimitReader.tla.
+type scriptedReader struct {
+	salt   uint64
+	pos    int
+	queue  []readAns // answers for the calls of the current step
+	reqs   []readReq // requests seen during the current step
+	broken string    // harness-level trouble (script exhausted, ...)
+}
+
+func (r *scriptedReader) Read(p []byte) (int, error) {
+	a := readAns{k: 0, err: "EOF"}
+	if len(r.queue) > 0 {
+		a, r.queue = r.queue[0], r.queue[1:]
+	} else {
+		// The specification predicted no call here; answer harmlessly, the
+		// request itself is what gets reported.
+		a = readAns{k: 0, err: "EOF"}
+	}
+	k := a.k
+	if k > len(p) {
+		// The code asked for less than the specification predicted; the
+		// request is recorded and reported, the fake stays within io.Reader's
+		// contract.
+		k = len(p)
+	}
+	fillStream(r.salt, p[:k], r.pos)
+	r.pos += k
+	r.reqs = append(r.reqs, readReq{Len: len(p), K: k, Err: a.err})
+	e, herr := errOf(a.err)
+	if herr != nil {
+		r.broken = herr.Error()
+	}
+	return k, e
+}
+
+// readObs is what one Read call looked like from outside.
+type readObs struct {
+	Buf    int       `json:"buf"`
+	Called bool      `json:"called"`
+	Req    int       `json:"req"`
+	K      int       `json:"k"`
+	RErr   string    `json:"rerr"`
+	N      int       `json:"n"`
+	Err    string    `json:"err"`
+	ELim   uint64    `json:"elim"`
+	From   int       `json:"from"`
+	Reqs   []readReq `json:"reqs,omitempty"`
+	Panic  string    `json:"panic,omitempty"`
+}
+
+// readStep performs one Read of b bytes on lr with r answering (k, rerr) and
+// reports everything observable.  delivered is the number of bytes delivered
+// by earlier calls.
+func readStep(lr io.Reader, r *scriptedReader, b, k int, rerr string, delivered, slen int) (o readObs) {
+	o = readObs{Buf: b, K: k, RErr: rerr, From: -1}
+	r.queue = []readAns{{k: k, err: rerr}}
+	r.reqs = nil
+	buf := make([]byte, b)
+	var n int
+	var err error
+	pv, panicked := vh.Try(func() { n, err = lr.Read(buf) })
+	if panicked {
+		o.Panic = fmt.Sprint(pv)
+		return o
+	}
+	o.N = n
+	o.Err, o.ELim = classify(err)
+	o.Reqs = r.reqs
+	o.Called = len(r.reqs) > 0
+	if o.Called {
+		o.Req = r.reqs[0].Len
+		o.K = r.reqs[0].K
+	}
+	if n >= 0 && n <= len(buf) {
+		o.From = locate(r.salt, buf[:n], delivered, slen+1)
+	}
+	return o
+}
+
+type readVec struct {
+	Lim   int     `json:"lim"`
+	SLen  int     `json:"slen"`
+	Steps []rStep `json:"steps"`
+}
+
+// rStep is one generator step <<buf, called, req, k, rerr, n, err, elim, from>>.
+type rStep struct{ readObs }
+
+func (st *rStep) UnmarshalJSON(b []byte) error {
+	f, err := fields(b, 9)
+	if err != nil {
+		return err
+	}
+	st.readObs = readObs{Buf: atoi(f[0]), Called: atoi(f[1]) == 1, Req: atoi(f[2]), K: atoi(f[3]), RErr: unq(f[4]),
+		N: atoi(f[5]), Err: unq(f[6]), ELim: uint64(atoi(f[7])), From: atoi(f[8])}
+	return nil
+}
+
+// fields splits a flat JSON array of numbers and plain strings (the compact
+// step encoding of the generator specs) into its n elements.
+func fields(b []byte, n int) ([]string, error) {
+	t := strings.TrimSpace(string(b))
+	if len(t) < 2 || t[0] != '[' || t[len(t)-1] != ']' {
+		return nil, fmt.Errorf("bad step %s", b)
+	}
+	f := strings.Split(t[1:len(t)-1], ",")
+	if len(f) != n {
+		return nil, fmt.Errorf("bad step %s: want %d fields", b, n)
+	}
+	return f, nil
+}
+
+func atoi(s string) int {
+	v, err := strconv.Atoi(strings.TrimSpace(s))
+	if err != nil {
+		panic("harness: bad number in vector: " + s)
+	}
+	return v
+}
+
+func unq(s string) string { return strings.Trim(strings.TrimSpace(s), `"`) }
+
+func replayReader(args []string) error {
+	if len(args) != 2 {
+		return fmt.Errorf("usage: replay-reader <vectors> <result>")
+	}
+	res, err := vh.NewResult(args[1])
+	if err != nil {
+		return err
+	}
+	var steps, calls atomic.Int64
+	dd := vh.NewDedup()
+	n, err := forEachParallel(args[0], dd, len(`"{\"lim\":0,\"slen\":0,\"steps\":[]}"`), func(n int, raw []byte) error {
+		var v readVec
+		if err := json.Unmarshal(raw, &v); err != nil {
+			return err
+		}
+		if n%49999 == 1 {
+			res.Sample(json.RawMessage(raw))
+		}
+		wants := make([]readObs, 0, len(v.Steps))
+		for _, st := range v.Steps {
+			wants = append(wants, st.readObs)
+		}
+		var st, ca int
+		fail, what, got, herr := runReaderPath(v.Lim, v.SLen, wants, &st, &ca)
+		steps.Add(int64(st))
+		calls.Add(int64(ca))
+		if herr != nil {
+			return herr
+		}
+		if fail >= 0 {
+			// Shrink: calls that do not change the state (nothing handed out
+			// by r) can be dropped without invalidating later predictions.
+			short := make([]readObs, 0, fail+1)
+			for _, w := range wants[:fail] {
+				if w.Called && w.K > 0 {
+					short = append(short, w)
+				}
+			}
+			short = append(short, wants[fail])
+			var s2, c2 int
+			if f2, w2, g2, _ := runReaderPath(v.Lim, v.SLen, short, &s2, &c2); f2 >= 0 {
+				wants, fail, what, got = short, f2, w2, g2
+			}
+			res.Mismatch(readerKey(v.Lim, wants[:fail+1]), what,
+				map[string]any{"limit": v.Lim, "predicted": wants[fail], "observed": got, "path": readerPath(wants[:fail+1])})
+		}
+		return nil
+	})
+	if err != nil {
+		return err
+	}
+	return res.Close(map[string]any{"replayed": n, "steps": steps.Load(), "reader_calls": calls.Load(), "distinct_nontrivial": dd.N()})
+}
+
+// runReaderPath replays one path on a fresh LimitReader; fail is the index of
+// the first call that disagrees with the prediction (-1: none).
+func runReaderPath(lim, slen int, wants []readObs, steps, calls *int) (fail int, what string, got readObs, herr error) {
+	r := &scriptedReader{salt: 0}
+	lr := ioutil.LimitReader(r, uint64(lim))
+	delivered := 0
+	for i, want := range wants {
+		*steps++
+		if want.Called {
+			*calls++
+		}
+		got = readStep(lr, r, want.Buf, want.K, want.RErr, delivered, slen)
+		if r.broken != "" {
+			return -1, "", got, fmt.Errorf("%s", r.broken)
+		}
+		if what = diffRead(want, got, uint64(lim)); what != "" {
+			return i, what, got, nil
+		}
+		delivered += got.N
+	}
+	return -1, "", got, nil
+}
+
+func readerKey(lim int, wants []readObs) string {
+	var key strings.Builder
+	fmt.Fprintf(&key, "LimitReader(n=%d)", lim)
+	for _, want := range wants {
+		if want.Called {
+			fmt.Fprintf(&key, " Read(%d)<-r(%d,%s)", want.Buf, want.K, want.RErr)
+		} else {
+			fmt.Fprintf(&key, " Read(%d)", want.Buf)
+		}
+	}
+	return key.String()
+}
+
+// readerPath re-encodes a path in the generator's compact form (for --replay).
+func readerPath(wants []readObs) [][]any {
+	out := make([][]any, 0, len(wants))
+	for _, w := range wants {
+		c := 0
+		if w.Called {
+			c = 1
+		}
+		out = append(out, []any{w.Buf, c, w.Req, w.K, w.RErr, w.N, w.Err, w.ELim, w.From})
+	}
+	return out
+}
+
+// diffRead compares the specification's prediction for one Read with the
+// observation; "" means equal.
+func diffRead(want, got readObs, lim uint64) string {
+	switch {
+	case got.Panic != "":
+		return "panic: " + got.Panic
+	case len(got.Reqs) > 1:
+		return fmt.Sprintf("r.Read called %d times by one Read", len(got.Reqs))
+	case got.Called != want.Called && got.Called:
+		return fmt.Sprintf("r was asked for %d more byte(s) although the specification predicts no call (limit used up)", got.Req)
+	case got.Called != want.Called:
+		return "r was not called although the limit is not used up"
+	case got.Called && got.Req != want.Req:
+		return fmt.Sprintf("requested %d byte(s) from r, the specification allows exactly %d", got.Req, want.Req)
+	case got.N != want.N:
+		return fmt.Sprintf("Read returned n=%d, predicted %d", got.N, want.N)
+	case got.Err != want.Err:
+		return fmt.Sprintf("Read returned error %q, predicted %q", got.Err, want.Err)
+	case want.Err == "Limit" && got.ELim != lim:
+		return fmt.Sprintf("LimitError carries %d, not the limit %d", got.ELim, lim)
+	case want.N > 0 && got.From != want.From:
+		return fmt.Sprintf("delivered bytes sit at stream offset %d, predicted %d (not the next bytes of r's stream)", got.From, want.From)
+	}
+	return ""
+}
+
+// ---------------------------------------------------------------- writer
+
+type writeReq struct {
+	Len  int    `json:"len"`
+	From int    `json:"from"`
+	J    int    `json:"j"`
+	Err  string `json:"err"`
+}
+
+// scriptedWriter is the wrapped writer of TruncWriter.tla.
+type scriptedWriter struct {
+	queue  []readAns
+	reqs   []writeReq
+	chunks [][]byte
+	broken string
+}
+
+func (w *scriptedWriter) Write(p []byte) (int, error) {
+	a := readAns{k: len(p), err: "nil"}
+	if len(w.queue) > 0 {
+		a, w.queue = w.queue[0], w.queue[1:]
+	}
+	j := a.k
+	if j > len(p) {
+		j = len(p)
+	}
+	w.chunks = append(w.chunks, bytes.Clone(p))
+	w.reqs = append(w.reqs, writeReq{Len: len(p), J: j, Err: a.err})
+	e, herr := errOf(a.err)
+	if herr != nil {
+		w.broken = herr.Error()
+	}
+	return j, e
+}
+
+type writeObs struct {
+	Len    int        `json:"len"`
+	Called bool       `json:"called"`
+	Req    int        `json:"req"`
+	From   int        `json:"from"`
+	J      int        `json:"j"`
+	WErr   string     `json:"werr"`
+	N      int        `json:"n"`
+	Err    string     `json:"err"`
+	Reqs   []writeReq `json:"reqs,omitempty"`
+	Panic  string     `json:"panic,omitempty"`
+}
+
+// writeStep writes the next b bytes of the concatenated stream (which has
+// total bytes so far) with w answering (j, werr).
+func writeStep(tw io.Writer, w *scriptedWriter, salt uint64, b, j int, werr string, total int) (o writeObs) {
+	o = writeObs{Len: b, J: j, WErr: werr, From: -1}
+	w.queue = []readAns{{k: j, err: werr}}
+	w.reqs, w.chunks = nil, nil
+	buf := make([]byte, b)
+	fillStream(salt, buf, total)
+	orig := bytes.Clone(buf)
+	var n int
+	var err error
+	pv, panicked := vh.Try(func() { n, err = tw.Write(buf) })
+	if panicked {
+		o.Panic = fmt.Sprint(pv)
+		return o
+	}
+	if !bytes.Equal(buf, orig) {
+		o.Panic = "Write modified the caller's slice"
+		return o
+	}
+	o.N = n
+	o.Err, _ = classify(err)
+	o.Called = len(w.reqs) > 0
+	for i := range w.reqs {
+		w.reqs[i].From = locate(salt, w.chunks[i], total, total+b+1)
+	}
+	o.Reqs = w.reqs
+	if o.Called {
+		o.Req = w.reqs[0].Len
+		o.J = w.reqs[0].J
+		o.From = w.reqs[0].From
+	}
+	return o
+}
+
+func diffWrite(want, got writeObs) string {
+	switch {
+	case got.Panic != "":
+		return "panic: " + got.Panic
+	case len(got.Reqs) > 1:
+		return fmt.Sprintf("w.Write called %d times by one Write", len(got.Reqs))
+	case got.Called && !want.Called:
+		return fmt.Sprintf("w.Write called with %d byte(s) although nothing remains of the limit", got.Req)
+	case !got.Called && want.Called:
+		return fmt.Sprintf("w.Write not called although %d byte(s) must be forwarded", want.Req)
+	case got.Called && got.Req != want.Req:
+		return fmt.Sprintf("forwarded %d byte(s), the specification says exactly %d", got.Req, want.Req)
+	case got.Called && want.Req > 0 && got.From != want.From:
+		return fmt.Sprintf("forwarded bytes sit at offset %d of the concatenated writes, predicted %d", got.From, want.From)
+	case got.N != want.N:
+		return fmt.Sprintf("Write reported n=%d, must report len(b)=%d", got.N, want.N)
+	case got.Err != want.Err:
+		return fmt.Sprintf("Write returned error %q, predicted %q", got.Err, want.Err)
+	}
+	return ""
+}
+
+// runWriterPath replays one path on a fresh TruncatedWriter; fail is the index
+// of the first call that disagrees with the prediction (-1: none).
+func runWriterPath(lim int, wants []writeObs, steps, calls *int) (fail int, what string, got writeObs, herr error) {
+	w := &scriptedWriter{}
+	tw := ioutil.NewTruncatedWriter(w, uint(lim))
+	total := 0
+	var forwarded []byte
+	for i, want := range wants {
+		*steps++
+		if want.Called {
+			*calls++
+		}
+		got = writeStep(tw, w, 0, want.Len, want.J, want.WErr, total)
+		if w.broken != "" {
+			return -1, "", got, fmt.Errorf("%s", w.broken)
+		}
+		if what = diffWrite(want, got); what != "" {
+			return i, what, got, nil
+		}
+		for _, c := range w.chunks {
+			forwarded = append(forwarded, c...)
+		}
+		total += want.Len
+		// The statement itself, checked on the bytes: everything w has
+		// received is the first min(total, n) bytes of the concatenation.
+		wantFwd := make([]byte, min(total, lim))
+		fillStream(0, wantFwd, 0)
+		if !bytes.Equal(forwarded, wantFwd) {
+			return i, fmt.Sprintf("w received %v, the first min(total,n) bytes are %v", forwarded, wantFwd), got, nil
+		}
+	}
+	return -1, "", got, nil
+}
+
+func writerKey(lim int, wants []writeObs) string {
+	var key strings.Builder
+	fmt.Fprintf(&key, "TruncatedWriter(n=%d)", lim)
+	for _, want := range wants {
+		if want.Called {
+			fmt.Fprintf(&key, " Write(%d)<-w(%d,%s)", want.Len, want.J, want.WErr)
+		} else {
+			fmt.Fprintf(&key, " Write(%d)", want.Len)
+		}
+	}
+	return key.String()
+}
+
+func writerPath(wants []writeObs) [][]any {
+	out := make([][]any, 0, len(wants))
+	for _, w := range wants {
+		c := 0
+		if w.Called {
+			c = 1
+		}
+		out = append(out, []any{w.Len, c, w.Req, w.From, w.J, w.WErr, w.N, w.Err})
+	}
+	return out
+}
+
+type writeVec struct {
+	Lim   int     `json:"lim"`
+	Steps []wStep `json:"steps"`
+}
+
+// wStep is one generator step <<len, called, req, from, j, werr, n, err>>.
+type wStep struct{ writeObs }
+
+func (st *wStep) UnmarshalJSON(b []byte) error {
+	f, err := fields(b, 8)
+	if err != nil {
+		return err
+	}
+	st.writeObs = writeObs{Len: atoi(f[0]), Called: atoi(f[1]) == 1, Req: atoi(f[2]), From: atoi(f[3]), J: atoi(f[4]),
+		WErr: unq(f[5]), N: atoi(f[6]), Err: unq(f[7])}
+	return nil
+}
+
+func replayWriter(args []string) error {
+	if len(args) != 2 {
+		return fmt.Errorf("usage: replay-writer <vectors> <result>")
+	}
+	res, err := vh.NewResult(args[1])
+	if err != nil {
+		return err
+	}
+	var steps, calls atomic.Int64
+	dd := vh.NewDedup()
+	n, err := forEachParallel(args[0], dd, len(`"{\"lim\":0,\"steps\":[]}"`), func(n int, raw []byte) error {
+		var v writeVec
+		if err := json.Unmarshal(raw, &v); err != nil {
+			return err
+		}
+		if n%9973 == 1 {
+			res.Sample(json.RawMessage(raw))
+		}
+		wants := make([]writeObs, 0, len(v.Steps))
+		for _, st := range v.Steps {
+			wants = append(wants, st.writeObs)
+		}
+		var st, ca int
+		fail, what, got, herr := runWriterPath(v.Lim, wants, &st, &ca)
+		steps.Add(int64(st))
+		calls.Add(int64(ca))
+		if herr != nil {
+			return herr
+		}
+		if fail >= 0 {
+			// Shrink: empty writes do not change the state.
+			short := make([]writeObs, 0, fail+1)
+			for _, w := range wants[:fail] {
+				if w.Len > 0 {
+					short = append(short, w)
+				}
+			}
+			short = append(short, wants[fail])
+			var s2, c2 int
+			if f2, w2, g2, _ := runWriterPath(v.Lim, short, &s2, &c2); f2 >= 0 {
+				wants, fail, what, got = short, f2, w2, g2
+			}
+			res.Mismatch(writerKey(v.Lim, wants[:fail+1]), what,
+				map[string]any{"limit": v.Lim, "predicted": wants[fail], "observed": got, "path": writerPath(wants[:fail+1])})
+		}
+		return nil
+	})
+	if err != nil {
+		return err
+	}
+	return res.Close(map[string]any{"replayed": n, "steps": steps.Load(), "writer_calls": calls.Load(), "distinct_nontrivial": dd.N()})
+}
+
+// ---------------------------------------------------------------- recording
+
+type ioEvent struct {
+	Op     string `json:"op"`
+	H      int    `json:"h"`
+	Lim    int    `json:"lim"`
+	SLen   int    `json:"slen"`
+	Buf    int    `json:"buf"`
+	Len    int    `json:"len"`
+	Called bool   `json:"called"`
+	Req    int    `json:"req"`
+	K      int    `json:"k"`
+	J      int    `json:"j"`
+	RErr   string `json:"rerr"`
+	WErr   string `json:"werr"`
+	N      int    `json:"n"`
+	Err    string `json:"err"`
+	ELim   int    `json:"elim"`
+	From   int    `json:"from"`
+}
+
+// recordIO drives real LimitReaders and TruncatedWriters with seeded random
+// histories far outside the model-checking bounds (n up to 10^6, buffers up
+// to 64 KiB, scripted misbehaviour of the wrapped object) and logs every call
+// for IOTrace.tla.
+func recordIO(args []string) error {
+	if len(args) != 4 {
+		return fmt.Errorf("usage: record-io <trace-out> <result> <histories> <steps>")
+	}
+	var nh, ns int
+	fmt.Sscan(args[2], &nh)
+	fmt.Sscan(args[3], &ns)
+	tr, err := vh.NewTrace(args[0])
+	if err != nil {
+		return err
+	}
+	res, err := vh.NewResult(args[1])
+	if err != nil {
+		return err
+	}
+	rng := vh.Rand(15)
+	salt := vh.Seed()*0x100000001B3 + 15
+	pickLimit := func() int {
+		switch rng.IntN(8) {
+		case 0:
+			return 0
+		case 1:
+			return 1
+		case 2, 3:
+			return 2 + rng.IntN(30)
+		case 4, 5:
+			return 32 + rng.IntN(5000)
+		default:
+			return 1 + rng.IntN(1000000)
+		}
+	}
+	pickLen := func(lim, left int) int {
+		switch rng.IntN(10) {
+		case 0:
+			return 0
+		case 1:
+			return 1
+		case 2:
+			return max(left, 0) // exactly what is left
+		case 3:
+			return max(left, 0) + 1 // one more than what is left
+		case 4:
+			return max(left-1, 0)
+		case 5:
+			return rng.IntN(65536)
+		case 6:
+			return lim + rng.IntN(3)
+		default:
+			return 1 + rng.IntN(max(lim/4, 8))
+		}
+	}
+	errToks := []string{"E1", "E2", "E3"}
+	nReads, nWrites := 0, 0
+	for h := 0; h < nh; h++ {
+		if h%2 == 0 {
+			// ---- reader history
+			lim := pickLimit()
+			var slen int
+			switch rng.IntN(6) {
+			case 0:
+				slen = 0
+			case 1:
+				slen = lim
+			case 2:
+				slen = max(lim-1-rng.IntN(3), 0)
+			case 3:
+				slen = lim + 1 + rng.IntN(3)
+			case 4:
+				slen = rng.IntN(lim + 1)
+			default:
+				slen = lim + rng.IntN(lim+10)
+			}
+			r := &scriptedReader{salt: salt + uint64(h)}
+			lr := ioutil.LimitReader(r, uint64(lim))
+			tr.Emit(ioEvent{Op: "newr", H: h, Lim: lim, SLen: slen, RErr: "nil", WErr: "nil", Err: "none"})
+			delivered := 0
+			pShort, pZero, pErr := rng.Float64()*0.5, rng.Float64()*0.2, rng.Float64()*0.2
+			for s := 0; s < ns; s++ {
+				b := pickLen(lim, lim-delivered)
+				// The answer the fake will give if asked: at most what the
+				// code may legally request (b, and the specification's clamp
+				// is NOT applied here: k <= len(p) is enforced by the fake).
+				avail := slen - r.pos
+				k := min(b, avail)
+				switch x := rng.Float64(); {
+				case x < pZero:
+					k = 0
+				case x < pZero+pShort && k > 0:
+					k = rng.IntN(k + 1)
+				}
+				rerr := "nil"
+				switch x := rng.Float64(); {
+				case x < pErr:
+					rerr = errToks[rng.IntN(len(errToks))]
+				case r.pos+k >= slen && rng.IntN(3) > 0, x > 0.97:
+					rerr = "EOF"
+				}
+				o := readStep(lr, r, b, k, rerr, delivered, slen)
+				if r.broken != "" {
+					return fmt.Errorf("%s", r.broken)
+				}
+				if o.Panic != "" || len(o.Reqs) > 1 {
+					res.Mismatch(fmt.Sprintf("io-record reader h=%d step=%d n=%d Read(%d)", h, s, lim, b),
+						"panic or repeated call of r: "+o.Panic, o)
+					break
+				}
+				ev := ioEvent{Op: "read", H: h, Lim: lim, SLen: slen, Buf: b, Called: o.Called, Req: o.Req, K: o.K,
+					RErr: rerr, WErr: "nil", N: o.N, Err: o.Err, ELim: int(min(o.ELim, 1<<30)), From: o.From}
+				if !o.Called {
+					// r's prepared answer was not consumed; log the neutral one.
+					ev.K, ev.RErr = 0, "nil"
+				} else {
+					ev.RErr = o.Reqs[0].Err
+				}
+				tr.Emit(ev)
+				nReads++
+				if o.N > 0 {
+					delivered += o.N
+				}
+			}
+			continue
+		}
+		// ---- writer history
+		lim := pickLimit()
+		w := &scriptedWriter{}
+		tw := ioutil.NewTruncatedWriter(w, uint(lim))
+		tr.Emit(ioEvent{Op: "neww", H: h, Lim: lim, RErr: "nil", WErr: "nil", Err: "none"})
+		total, fwd := 0, 0
+		pShort, pErr := rng.Float64()*0.4, rng.Float64()*0.3
+		wsalt := salt + uint64(h)
+		for s := 0; s < ns; s++ {
+			b := pickLen(lim, lim-fwd)
+			j := b
+			if rng.Float64() < pShort && b > 0 {
+				j = rng.IntN(b + 1)
+			}
+			werr := "nil"
+			if rng.Float64() < pErr {
+				werr = errToks[rng.IntN(len(errToks))]
+			}
+			o := writeStep(tw, w, wsalt, b, j, werr, total)
+			if w.broken != "" {
+				return fmt.Errorf("%s", w.broken)
+			}
+			if o.Panic != "" || len(o.Reqs) > 1 {
+				res.Mismatch(fmt.Sprintf("io-record writer h=%d step=%d n=%d Write(%d)", h, s, lim, b),
+					"panic or repeated call of w: "+o.Panic, o)
+				break
+			}
+			ev := ioEvent{Op: "write", H: h, Lim: lim, Len: b, Called: o.Called, Req: o.Req, J: o.J, RErr: "nil",
+				WErr: "nil", N: o.N, Err: o.Err, From: o.From}
+			if o.Called {
+				ev.WErr = o.Reqs[0].Err
+			}
+			tr.Emit(ev)
+			nWrites++
+			total += b
+			fwd += o.Req
+		}
+	}
+	if err := tr.Close(); err != nil {
+		return err
+	}
+	return res.Close(map[string]any{"events": tr.N, "histories": nh, "reads": nReads, "writes": nWrites})
+}
